@@ -15,7 +15,7 @@ import hashlib
 from dsim.kernel import make_bench, cached_bench, Violations
 from models import usb2
 from models.usb2 import token_packet, data_packet, handshake_packet, pid_byte
-from models.usb2_wire import render_rx, WaveActor, rand_timing
+from models.usb2_wire import render_rx, WaveActor, rand_timing, gen_idle_data
 
 PROPERTY = "C04"
 ENGINE = "usb2_wire"
@@ -122,7 +122,7 @@ def _gen_detector(rng, tier):
         op["bytes"] = raw.hex()
         op["what"] = what
         ops.append(op)
-    return {"engine": ENGINE, "config": {"part": "det"}, "ops": ops}
+    return {"engine": ENGINE, "config": {"part": "det", "idle_data": gen_idle_data(rng)}, "ops": ops}
 
 
 # ------------------------------------------------------------------------------------------------
@@ -320,7 +320,7 @@ def _run_generator(scn):
 def _run_detector(scn):
     ops = scn["ops"]
     bench = _bench("det")
-    wave, packets = render_rx(ops)
+    wave, packets = render_rx(ops, idle_data=scn["config"].get("idle_data"))
     actor = WaveActor(wave)
     log = bench.run([actor], max_cycles=len(wave) + 4)
     S = actor.samples
